@@ -1548,3 +1548,38 @@ Proof.
   rewrite (store_sub_same _ _ Ha (store_same_docs_wf _ _ Ha Hs Hw) Hs).
   rewrite (store_sub_same S (abs m) Hb Hw); [reflexivity|]. intros id. symmetry. apply Hs.
 Qed.
+
+(* ---- an empty string cannot become a key of a string / string-array index: such a document is ill-typed,
+   so an insert batch that carries one is rejected as a whole (round k) ---- *)
+Lemma empty_key_ill_typed_arr : forall (sc : schema) (path : bytes) (cs : bool) (d : doc) (l : list value),
+  In (path, IStrArr cs) sc -> prop_value path d = QFound (VArr l) -> In (VStr []) l -> well_typed sc d = false.
+Proof.
+  intros sc path cs d l Hin Hpv Hl.
+  destruct (well_typed sc d) eqn:E; [|reflexivity]. exfalso.
+  unfold well_typed in E. rewrite forallb_forall in E. specialize (E _ Hin).
+  cbn [fst snd] in E. rewrite Hpv in E. cbn [type_ok] in E.
+  apply andb_true_iff in E. destruct E as [_ E].
+  rewrite forallb_forall in E. specialize (E _ Hl). discriminate E.
+Qed.
+
+Lemma empty_key_ill_typed_str : forall (sc : schema) (path : bytes) (cs : bool) (d : doc),
+  In (path, IStr cs) sc -> prop_value path d = QFound (VStr []) -> well_typed sc d = false.
+Proof.
+  intros sc path cs d Hin Hpv.
+  destruct (well_typed sc d) eqn:E; [|reflexivity]. exfalso.
+  unfold well_typed in E. rewrite forallb_forall in E. specialize (E _ Hin).
+  cbn [fst snd] in E. rewrite Hpv in E. discriminate E.
+Qed.
+
+Lemma spec_empty_key_rejected : forall (sc : schema) (ps : list (uuid * doc)) (s : store) (p : uuid * doc) (path : bytes) (cs : bool),
+  In p ps ->
+  (In (path, IStr cs) sc /\ prop_value path (snd p) = QFound (VStr [])) \/
+  (In (path, IStrArr cs) sc /\ exists l, prop_value path (snd p) = QFound (VArr l) /\ In (VStr []) l) ->
+  exists es, es <> [] /\ insert_spec sc ps s = (s, SErr es).
+Proof.
+  intros sc ps s p path cs Hp H.
+  apply (proj1 (spec_insert_rejects sc ps s)). right. right. exists p. split; [exact Hp|].
+  destruct H as [[Hin Hpv]|[Hin [l [Hpv Hl]]]].
+  - exact (empty_key_ill_typed_str sc path cs (snd p) Hin Hpv).
+  - exact (empty_key_ill_typed_arr sc path cs (snd p) l Hin Hpv Hl).
+Qed.
